@@ -10,6 +10,53 @@ import progcommon as pc
 import c04
 
 PID = "C02"
+INT_MIN, INT_MAX = -2147483648, 2147483647
+CMP = {"<": lambda a, b: a < b, "<=": lambda a, b: a <= b, ">": lambda a, b: a > b, ">=": lambda a, b: a >= b}
+
+
+def loop_cases(tier):
+    """(shape, op, init, step, bound) whose loop terminates in the 32-bit range within 20000 iterations;
+    bounds, strides and initial values near INT_MIN / INT_MAX included (LoopRules.tla's universe scaled up)."""
+    inits = [INT_MIN, -2000000000, -1000, -7, 0, 5, 1000000000, 2000000000, INT_MAX]
+    steps = [1, 3, 1000, 1000000, 7000000, 1000000000, 2 ** 30]
+    bounds = [INT_MIN, -2000000000, -10, 0, 10, 1000, 2000000000, INT_MAX]
+    if tier == "quick":
+        inits = [INT_MIN, -2000000000, -7, 0, 2000000000]
+        steps = [3, 1000000, 7000000, 2 ** 30]
+        bounds = [-2000000000, 0, 1000, 2000000000, INT_MAX]
+    cases = []
+    for op in CMP:
+        for i0 in inits:
+            for s0 in steps:
+                s = s0 if op in ("<", "<=") else -s0
+                for b in bounds:
+                    i, n, ok = i0, 0, True
+                    while CMP[op](i, b):
+                        i += s
+                        n += 1
+                        if n > 20000 or not (INT_MIN <= i <= INT_MAX):
+                            ok = False
+                            break
+                    if ok and n > 0:
+                        for shape in ("i", "j", "acc"):
+                            cases.append((shape, op, i0, s, b))
+    return cases
+
+
+def loop_program(case):
+    shape, op, i0, s, b = case
+    if shape == "i":      # result is the guarded induction variable itself
+        body = f"function loop(i: int): int = if i {op} ({b}) {{ Main.loop(i + ({s})) }} else {{ i }}"
+        call = f"Main.loop({i0})"
+    elif shape == "j":    # result is a second induction variable
+        body = f"function loop(i: int, j: int): int = if i {op} ({b}) {{ Main.loop(i + ({s}), j + 3) }} else {{ j }}"
+        call = f"Main.loop({i0}, 1)"
+    else:                 # result is a count that depends on the number of iterations, with a derived variable
+        body = f"function loop(i: int, acc: int): int = if i {op} ({b}) {{ Main.loop(i + ({s}), acc + 1) }} else {{ acc * 2 + 1 }}"
+        call = f"Main.loop({i0}, 0)"
+    text = f"class Main {{\n  {body}\n  function main(): unit = Process.println(Str.fromInt({call}))\n}}\n"
+    return {"origin": f"loop:{shape}:{op}:{i0}:{s}:{b}", "entry": "Main", "sources": {"Main": text}}
+
 SINGLE = [1, 2, 4, 8, 16]
 ALL_BUT_ONE = [30, 29, 27, 23, 15]
 
@@ -37,6 +84,13 @@ def run(tier):
     elif not v.ok:
         log(v.out[-3000:])
         tool_failure(f"ArithTrace failed: {v.error}")
+    # 2b. the loop optimiser's closed forms: LoopRules.tla exhaustively at a small range, then
+    #     counting loops at the 32-bit range compiled with and without optimisation
+    lr = tlc("LoopRules", "LoopRulesMC.cfg", workers=8, timeout=900, tag="c02lr")
+    tlc_must_pass(lr, "LoopRules.tla model checking")
+    lcases = loop_cases(tier)
+    lrecs = pc.run_programs(d, "loops", [loop_program(c) for c in lcases], [0, 4, 31])
+    fails += pc.judge_obs(PID, "ObsC02.cfg", lrecs, "c02loops", "counting loops (LoopRules universe at 32 bits)", stats, d)
     # 3. whole programs under many configurations
     programs = pc.repo_programs()
     n = 100 if tier == "quick" else 1500
@@ -47,10 +101,11 @@ def run(tier):
     fails += pc.judge_obs(PID, "ObsC02.cfg", recs, "c02", "repository + generated programs", stats, d)
     cen = pc.census(recs)
     coverage = {
-        "programs": len(recs), "disagreements_checked": sum(2 * max(0, len(r.get("builds", {})) - 1) for r in recs) + len(rows),
+        "programs": len(recs), "disagreements_checked": sum(2 * max(0, len(r.get("builds", {})) - 1) for r in recs + lrecs) + len(rows),
         "samples": [{"origin": r["origin"], "builds": sorted(r.get("builds", {}).keys())[:6],
                      "unopt_out": ((r.get("builds", {}).get("opt:0", {}) or {}).get("wasm", {}) or {}).get("out", [])[:4]} for r in recs[-2:]] + rows[:1],
         "configurations": [f"opt:{b}" for b in builds], "fold_cases": len(rows), "fold_table_states": mc.distinct,
+        "loop_rule_states": lr.distinct, "loop_cases_replayed": len(lrecs),
         "census": cen, "trace_states_checked_by_tlc": v.generated + stats.get("tlc_states", 0),
     }
     write_evidence(PID, tier, "translation_validation", coverage,
